@@ -178,7 +178,9 @@ pub struct C13;
 fn c13_profile(r: &mut Rng) -> Profile {
     let mut p = Profile::default();
     p.name = "cancel-twin";
-    p.cancel_pct = 0;
+    // the recorded prefix may itself contain cancelled operations (identical in both runs): the
+    // request under test then starts from a half-written packet
+    p.cancel_pct = 15;
     p.connect_cancel_pct = 0;
     p.conn_fault_pct = 0;
     p.w_fault = 0;
@@ -532,6 +534,7 @@ pub struct C15;
 fn c15_profile(r: &mut Rng) -> Profile {
     let mut p = c13_profile(r);
     p.name = "fragment-twin";
+    p.cancel_pct = 0;
     p.keepalive_choices = vec![0];
     p.w_advance = 0;
     p.w_bpublish = 16;
@@ -616,7 +619,9 @@ fn keepalive_stalls(rng: &mut Rng, seed: u64, verbose: bool) -> CaseOut {
                 Some(s)
             }
         }
-        let (blog, bworld) = run_case(&cfg, seed, &mut SlowWrites(&mut d, slow.then_some(wpolicy)), steps.len() * 60 + 64);
+        // (the other variants split writes as well, without pauses)
+        let wpolicy = if slow { wpolicy } else { IoPolicy { slow_write_us: 0, ..wpolicy } };
+        let (blog, bworld) = run_case(&cfg, seed, &mut SlowWrites(&mut d, Some(wpolicy)), steps.len() * 60 + 64);
         let bw = bworld.borrow();
         let b = summarize(&blog, &bw);
         out.evaluations += 1;
@@ -631,6 +636,26 @@ fn keepalive_stalls(rng: &mut Rng, seed: u64, verbose: bool) -> CaseOut {
                 // (a pause of the slow transport while a PINGREQ is unanswered counts the same)
                 Ev::Time { from, to } if outstanding > 0 && to > from && slow => dead_peer_stall = true,
                 _ => {}
+            }
+        }
+        // however the PINGREQ's two bytes are accepted, it goes out once: the unfragmented run
+        // never shows a PINGREQ while another one is unanswered (PINGREQs are otherwise left out
+        // of the comparison because their schedule depends on time)
+        {
+            let mut open = 0i32;
+            for e in &bw.events {
+                match e {
+                    Ev::CPkt { conn, idx } if matches!(bw.conns[*conn].out.packets[*idx].pkt, CPacket::PingReq) => {
+                        if open > 0 {
+                            out.violations.push(viol("C15", "C15/keepalive-stall/pingreq-repeated-while-unanswered", format!("variant {} (writes {:?}): a second PINGREQ was written on conn {} while the first was unanswered", k, bw.conns[*conn].policy.write, conn)));
+                            break;
+                        }
+                        open += 1;
+                    }
+                    Ev::Consumed { conn, idx } if matches!(bw.conns[*conn].in_pkts[*idx].pkt, Some(crate::refcodec::SPacket::PingResp)) => open = (open - 1).max(0),
+                    Ev::ConnBegin { .. } => open = 0,
+                    _ => {}
+                }
             }
         }
         if dead_peer_stall {
